@@ -447,6 +447,7 @@ var Mutants = map[string][]Mutant{
 		{"vertical fonts written as horizontal", "renderers/pdf/writer.go", `w\.writeFonts\(w\.fontsV, true\)`, `w.writeFonts(w.fontsV, false)`, "E5.fontmaps"},
 	},
 	"C19": {
+		{"stroke-miterlimit forgotten while a round join is current (seed C19q)", "svg.go", `(\t\tsvg\.state\.strokeMiterLimit = svg\.parseDimension\(val, svg\.diagonal\)\n)`, "\t\tif _, ok := svg.ctx.StrokeJoiner.(RoundJoiner); ok {\n\t\t\treturn\n\t\t}\n${1}", "E11.svg-miterlimit-carried"},
 		{"pairs after a relative moveto read as absolute (seed C19p)", "path.go", `(\t\t\t\tp1 = p1\.Add\(p0\)\n\t\t\t\tcmd = )'l'`, "${1}'L'", "E11.implicit-lineto-relativity"},
 		{"descendant combinator commits to the nearest matching ancestor (seed C19o)", "svg.go", `\t\t\tif sels\.appliesAt\(isel-1, elems, j\) \{\n\t\t\t\treturn true\n\t\t\t\}\n`, "\t\t\tif sels[isel-1].AppliesTo(elems[j]) {\n\t\t\t\treturn sels.appliesAt(isel-1, elems, j)\n\t\t\t}\n", "E11.selector-backtracks"},
 		{"a sign does not start a new number", "svg.go", `(?s)\t\tcase \(ch == '-' \|\| ch == '\+'\) && 0 < i && \('0' <= v\[i-1\] && v\[i-1\] <= '9' \|\| v\[i-1\] == '\.'\):\n\t\t\tsb\.WriteByte\(','\)\n\t\t\tsb\.WriteByte\(ch\)\n`, "", "E11.number-list-separators"},
